@@ -17,6 +17,7 @@
   75795-M01-8, that a day is reported as day 0 of a month and that a build with debug assertions panics — the known finding C16-hebrew-molad-at-gate.
 -/
 import TemporalModel.Lemmas.HebrewLemmas
+import TemporalModel.Lemmas.HebrewYears
 import TemporalModel.Props.C16
 import TemporalModel.Model.HebrewGlue
 namespace TemporalModel
@@ -197,6 +198,56 @@ theorem C16_hebrew_from_partial_partial (iso : IsoDate) (hr : InRange iso)
     simp only [Option.bind_some, hiso]
     exact newWithOverflow_of_inRange iso _ hr
 
+/-- **C16 (hebrew: where the code departs from the calendar)**: the Hebrew years of Temporal's range whose molad of
+    Tishrei falls exactly on Saturday 18 h 0 p are −114910, 75795 and 193152, and every day of Temporal's range whose
+    estimated Hebrew year is not one of those or a neighbour satisfies the hypothesis `Good` of the `_partial`
+    theorems. -/
+theorem C16_hebrew_exceptional_years :
+    (∀ y : Int, -268059 ≤ y → y ≤ 279518 → (inWeek y = 174960 ↔ (y = -114910 ∨ y = 75795 ∨ y = 193152))) ∧
+    (∀ n : Int, InTemporalDays n → ¬ InGateWindow n → Good n) :=
+  ⟨gate_years, good_outside_windows⟩
+
+/-- The C16 clauses for the code as written, for every ISO date of Temporal's range outside the three windows. -/
+theorem C16_hebrew_in_range (iso : IsoDate) (hr : InRange iso)
+    (hw : ¬ InGateWindow (Greg.dayNumber iso.year iso.month iso.day))
+    (hw' : ¬ InGateWindow (Greg.dayNumber iso.year iso.month iso.day + 1))
+    (hn' : InTemporalDays (Greg.dayNumber iso.year iso.month iso.day + 1)) (ov : Option Overflow) :
+    let n := Greg.dayNumber iso.year iso.month iso.day
+    FieldsOk (hebrewFields n) ∧ Consecutive (hebrewFields n) (hebrewFields (n + 1)) ∧
+    hebrewFieldsChecked n = .ok (hebrewFields n) ∧
+    plainDateFromPartialHeb ⟨none, none, some (hebrewFields n).year, none, some (hebrewFields n).monthCode,
+      some (hebrewFields n).day⟩ ov = .ok iso := by
+  intro n
+  have g := good_outside_windows n (inRange_temporalDays iso hr) hw
+  have g' := good_outside_windows (n + 1) hn' hw'
+  exact ⟨C16_hebrew_fields_bounds_partial n g, C16_hebrew_consecutive_days_partial n g g',
+    C16_hebrew_no_assertion_partial n g, (C16_hebrew_from_partial_partial iso hr g ov).1⟩
+
+example : ¬ InGateWindow 19797 ∧ InGateWindow 25590925 := by decide +kernel
+
+
+/-! ### Changing the calendar of a date-time or of a zoned date-time -/
+
+/-- **C16 (changing the calendar keeps the ISO date-time)**: `PlainDateTime::with_calendar` rebuilds the value from
+    its ISO fields; for a value that exists (valid date, valid time, inside the limits) that is the same value. -/
+theorem C16_with_calendar_keeps_datetime (dt : IsoDateTime) (hv : Valid dt.date.year dt.date.month dt.date.day)
+    (ht : dt.time.isValid = true) (hl : isoDtWithinValidLimits dt.date dt.time = true) :
+    plainDateTimeTryNew dt.date.year dt.date.month dt.date.day dt.time.hour dt.time.minute dt.time.second
+      dt.time.millisecond dt.time.microsecond dt.time.nanosecond = .ok dt := by
+  unfold plainDateTimeTryNew plainTimeTryNew
+  simp only [ht, if_true, Out.bind_ok, regulate_reject, hv, IsoDateTime.new, hl]
+
+/-- **C16 (changing the calendar keeps the instant)**: `ZonedDateTime::with_calendar` rebuilds the value from its
+    epoch nanoseconds, which are inside the instant range. -/
+theorem C16_with_calendar_keeps_instant (ns : Int) (h : -nsMaxInstant ≤ ns ∧ ns ≤ nsMaxInstant) :
+    instantTryNew ns = .ok ns := by
+  unfold instantTryNew; rw [if_pos h]
+
 end TemporalModel
 
 #print axioms TemporalModel.C16_hebrew_from_partial_partial
+
+#print axioms TemporalModel.C16_hebrew_exceptional_years
+#print axioms TemporalModel.C16_hebrew_in_range
+#print axioms TemporalModel.C16_with_calendar_keeps_datetime
+#print axioms TemporalModel.C16_with_calendar_keeps_instant
